@@ -21,6 +21,7 @@ structure IStep where
   outcome : Outcome
   sessions : List Nat         -- registered session ids after the event (sorted)
   gauge : Int                 -- session gauge after the event (relative to the start of the history)
+  extra : List String := []   -- decoded payloads the model does not carry (dagaz query results, latency statistics)
 deriving Repr, Inhabited
 
 def Out.sameAs (a b : Out) : Bool :=
